@@ -10,7 +10,7 @@ from run import Case
 import zoo
 
 PROPERTY = "C05"
-LEAN_MODULE = "PyOak.Props.C05"
+LEAN_MODULE = "PyOak.Props.C05All"
 THEOREMS = [
     "PyOak.C05.dfs_top_down",
     "PyOak.C05.dfs_bottom_up",
@@ -21,6 +21,11 @@ THEOREMS = [
     "PyOak.C05.dfs_all_positions",
     "PyOak.C05.postItems_length",
 ]
+THEOREMS += ["PyOak.C05X." + t for t in [
+    "dfs_bottom_up_yield_sound", "bfs_yield_sound", "dfs_bottom_up_never_yields_start", "bfs_never_yields_start",
+    "post_perm_pre", "bfs_perm_pre", "pre_filter", "post_filter", "bfs_filter", "dfsImpl_filter", "bfsImpl_filter",
+    "preN_pruned", "postN_pruned", "mem_dfsImpl_iff", "mem_bfsImpl_iff", "pre_sublist_noprune",
+    "pruned_descendants_not_visited_impl", "dfsImpl_keys_nodup", "bfsImpl_keys_nodup", "all_orders_length"]]
 RULE = ("seeded zoo trees (single/optional/union/variadic/fixed-tuple child fields, inherited fields, shared "
         "objects, falsy children, tuples of length 11-14) x prune/filter predicates given as subsets of positions; "
         "thorough additionally enumerates all prune x filter subsets for trees with <= 4 positions; "
